@@ -537,9 +537,13 @@ impl PeekByte for Variant {
         match self {
             Self::VInteger(i) => {
                 let bytes = i32_to_bytes(*i);
-                Ok(bytes[address])
+                bytes
+                    .get(address)
+                    .copied()
+                    .ok_or(RuntimeError::IllegalFunctionCall)
             }
-            _ => todo!(),
+            // only INTEGER values are supported
+            _ => Err(RuntimeError::IllegalFunctionCall),
         }
     }
 }
@@ -547,7 +551,10 @@ impl PeekByte for Variant {
 impl PeekByte for VArray {
     fn peek_byte(&self, address: usize) -> Result<u8, RuntimeError> {
         let element_size = self.byte_size() / self.len();
-        debug_assert!(element_size > 0);
+        if element_size == 0 {
+            // e.g. an array of strings
+            return Err(RuntimeError::IllegalFunctionCall);
+        }
         let element_index = address / element_size;
         let offset = address % element_size;
         let element = self
@@ -566,11 +573,15 @@ impl PokeByte for Variant {
         match self {
             Self::VInteger(i) => {
                 let mut bytes = i32_to_bytes(*i);
-                bytes[address] = value;
+                match bytes.get_mut(address) {
+                    Some(byte) => *byte = value,
+                    None => return Err(RuntimeError::IllegalFunctionCall),
+                }
                 *i = bytes_to_i32(bytes);
                 Ok(())
             }
-            _ => todo!(),
+            // only INTEGER values are supported
+            _ => Err(RuntimeError::IllegalFunctionCall),
         }
     }
 }
@@ -578,7 +589,10 @@ impl PokeByte for Variant {
 impl PokeByte for VArray {
     fn poke_byte(&mut self, address: usize, value: u8) -> Result<(), RuntimeError> {
         let element_size = self.byte_size() / self.len();
-        debug_assert!(element_size > 0);
+        if element_size == 0 {
+            // e.g. an array of strings
+            return Err(RuntimeError::IllegalFunctionCall);
+        }
         let element_index = address / element_size;
         let offset = address % element_size;
         let element = self
